@@ -148,7 +148,7 @@ def run(ctx):
             if kind == "loop" and k in lmodel and accepted:
                 iloop, _, ibody = o.partition(" | ") if o.startswith("loop=") else ("", "", o)
                 pi = heapcheck.proj_dump(ibody.split(" | ")[0])
-                mm = re.match(r"trie=(\S*) (loop=\S+ passes=\S+ exceeded=\S+ )?(noid=\S+ )?(.*)", lmodel[k])
+                mm = re.match(r"trie=(\S*) (loop=\S+ passes=\S+ exceeded=\S+ )?(noid=\S+ )?(?:gidok=\S+ )?(.*)", lmodel[k])
                 mb = mm.group(4).strip() if mm else lmodel[k]
                 ml_ = (mm.group(2) or "").strip() if mm else ""
                 if pi != mb or (pi != "noseg" and ml_ and ml_ != iloop):
